@@ -178,7 +178,7 @@ GPenOK == ph = "cmd" => (IF st.mode = "fresh" THEN TRUE ELSE st.pen = p0)
 \* symbols of Sym that the parser skips as separators: a string made of these only is "only separators" (feature of #9)
 SepSyms == {" ", ","}
 OnlySeparators(s) == s # <<>> /\ \A i \in 1..Len(s) : s[i] \in SepSyms
-Sym == <<"M", "z", "A", "1", "-", ".", "e", " ", ",", "L", "0", "h", "+", "x">>
+Sym == <<"M", "z", "A", "1", "-", ".", "e", " ", ",", "L", "0", "h", "+", "x", "Z">>   \* both closepath letters: "Z1" and "z1" must be rejected, not repeated
 FInit == /\ str = <<>> /\ st = InitSt /\ hist = <<>> /\ ph = "cmd" /\ cmd = "" /\ acc = <<>> /\ lastk = "none"
          /\ p0 = <<0, 0>> /\ sp = <<0, 0>> /\ lc = <<0, 0>> /\ lq = <<0, 0>> /\ prev = ""
 FNext == /\ Len(str) < MaxChars
